@@ -323,6 +323,23 @@ def splice_function(u, spec, mode, canary=False, variants=(), rename=None):
             if anchor == "fn head":
                 edits.append((body_open + 1, ins))
                 continue
+            m = re.match(r"(before|after) #\* `(.*)`$", anchor)
+            if m:
+                # every occurrence (zero occurrences is fine: nothing to annotate)
+                where, needle = m.group(1), m.group(2)
+                start = body_open
+                while True:
+                    pos = text.find(needle, start)
+                    if pos < 0:
+                        break
+                    start = pos + 1
+                    if where == "before":
+                        ls = text.rfind("\n", 0, pos) + 1
+                        edits.append((ls, ins.lstrip("\n")))
+                    else:
+                        le = text.find("\n", pos)
+                        edits.append((le, ins.rstrip("\n")))
+                continue
             m = re.match(r"(before|after) #(\d+) `(.*)`$", anchor)
             if m:
                 where, k, needle = m.group(1), int(m.group(2)), m.group(3)
